@@ -22,7 +22,7 @@ def rel(loc):
 def run(tier):
     rep = Report("C52", tier, "other", RULE)
     main_u = os.path.join(REPO, "tfel-check/src/tfel-check.cxx")
-    dumps = cfgdump([main_u], os.path.join(OUT, "C52", "dump"), funcs=r"^(tfel::check::TFELCheck::execute|main)$", root=REPO)
+    dumps = cfgdump([main_u], os.path.join(OUT, "C52", "dump"), funcs=r"^(tfel::check::TFELCheck::execute|tfel::check::TFELCheck::registerArgumentCallBacks|main$)", root=REPO)
     funcs = load_functions(dumps)
     kids = children_of(funcs)
     ex = [f for f in funcs if f.qname == "tfel::check::TFELCheck::execute" and f.parent is None]
@@ -252,8 +252,12 @@ def run(tier):
     else:
         rep.fail("VERDICT-NOT-RETURNED@TFELCheck::execute", "execute does not return the accumulated status")
     mr = [s for s, n in mn.stmts.items() if n["k"] == "ReturnStmt" and mn.kids(s)]
-    if mr and all((mn.stmts[mn.strip(mn.kids(s)[0])].get("callee") or "").endswith("TFELCheck::execute") for s in mr):
-        rep.ok("main returns check.execute()")
+    def failure_constant(sid):
+        n_ = mn.stmts[mn.strip(sid)]
+        return n_["k"] == "IntegerLiteral" and int(n_["value"]) != 0      # EXIT_FAILURE
+    exe_rets = [s for s in mr if (mn.stmts[mn.strip(mn.kids(s)[0])].get("callee") or "").endswith("TFELCheck::execute")]
+    if exe_rets and all(s in exe_rets or failure_constant(mn.kids(s)[0]) for s in mr):
+        rep.ok("main returns check.execute() (its other returns, in the exception handlers, are failures)")
     else:
         rep.fail("MAIN-VERDICT@main", "main does not return the value of TFELCheck::execute")
 
@@ -370,4 +374,54 @@ def run(tier):
     else:
         rep.fail("SHALL-FAIL-TABLE@tfel::check::TestLauncher::execute#handlers", "the handlers of TestLauncher::execute return %s instead of the shall_fail flag" % hret)
     rep.floor("returns after the command ran to completion", 2)
+    # ---- R8 the command line cannot make tfel-check hang or abort: main catches, the number of jobs is validated
+    mainf = mn
+    pmn = mainf.parent_map()
+    sites = [s_ for s_, n in mainf.stmts.items() if (n["k"] == "CXXMemberCallExpr" and (n.get("callee") or "").endswith("TFELCheck::execute")) or
+             (n["k"] == "CXXConstructExpr" and (n.get("ctorClass") or "").endswith("tfel::check::TFELCheck"))]
+    if not sites:
+        raise AnalysisBroken("main of tfel-check: construction / execution of TFELCheck not found")
+    out = []
+    for s_ in sites:
+        q, ok = s_, False
+        while q in pmn:
+            c = q
+            q = pmn[q]
+            if mainf.stmts[q]["k"] == "CXXTryStmt" and mainf.kids(q) and mainf.kids(q)[0] == c:
+                ok = True
+        if not ok:
+            out.append(s_)
+    rep.count("calls of tfel-check's main examined", len(sites))
+    if out:
+        rep.fail("MAIN-CATCHES@tfel-check main", "%s: main of tfel-check constructs or runs TFELCheck outside any try block: an exception (an invalid value of an "
+                 "option, a system error) ends in std::terminate - SIGABRT instead of a failure status" % rel(mainf.short_loc(out[0])))
+    else:
+        rep.ok("main of tfel-check constructs and runs TFELCheck in a try block")
+    # the closure parsing --jobs: it rejects 0 (a pool without worker never runs a task: tfel-check waits for ever) and catches every
+    # exception of the conversion (std::stoul throws out_of_range as well as invalid_argument)
+    jl = None
+    for g in load_functions(dumps):
+        if g.parent is None:
+            continue
+        calls = [n for n in g.stmts.values() if n["k"] == "CallExpr" and (n.get("callee") or "").endswith("stoul")]
+        if calls and any(n["k"] == "MemberExpr" and n.get("member") == "njobs" for n in g.stmts.values()):
+            jl = g
+    if jl is None:
+        raise AnalysisBroken("the closure parsing --jobs was not found")
+    zero = False
+    for s_, n in jl.stmts.items():
+        bo = jl.binop(s_)
+        if bo and bo[0] in ("==", "<", "<=", "!=", ">"):
+            ts = [jl.stmts.get(jl.strip(x)) for x in bo[1:]]
+            if any(t is not None and t["k"] == "MemberExpr" and t.get("member") == "njobs" for t in ts) and \
+                    any(t is not None and t["k"] == "IntegerLiteral" and int(t["value"]) in (0, 1) for t in ts):
+                zero = True
+    handlers = [jl.text(s_) for s_, n in jl.stmts.items() if n["k"] == "CXXCatchStmt"]
+    catches_all = any(n["k"] == "CXXCatchStmt" and ("std::exception" in str(n) or not [k for k in jl.kids(s_) if jl.stmts[k]["k"] == "DeclStmt"]) for s_, n in jl.stmts.items())
+    rep.count("validations of --jobs", int(zero) + int(catches_all))
+    if zero and catches_all:
+        rep.ok("--jobs: 0 is rejected and every exception of the conversion is caught")
+    else:
+        rep.fail("JOBS-VALIDATED@tfel-check --jobs", "%s: the value of --jobs is %s: '-j 0' builds a pool without worker and tfel-check waits for ever, "
+                 "'-j 99999999999999999999' or '-j -1' end in an uncaught exception" % (rel(jl.loc), "not compared with 0" if not zero else "converted under a handler that does not catch std::out_of_range"))
     return rep
